@@ -189,6 +189,10 @@ def _rec(k):
 
 
 def _geom(k):
+    if k == 3:        # 3 and 4 are ONE geometry spelled twice: 0.0 / -0.0 and 2.0 / the int 2
+        return data.TimeInterval(coordinates=[0.0, 2.0])
+    if k == 4:
+        return data.TimeInterval(coordinates=[-0.0, 2])
     return data.TimeInterval(coordinates=[1.0, 2.0]) if k == 1 else data.BoundingBox(coordinates=[1.0, 100.0, 2.0, 200.0])
 
 
@@ -224,7 +228,7 @@ FIELDS = {
                               ("tags", lambda k: [] if k == 1 else [_PTAG()]),
                               ("features", lambda k: [] if k == 1 else [_FEAT()])], {}),
 }
-_DOM = {1: [2, 2, 2, 2, 3, 2], 2: [7, 2], 3: [7, 5], 4: [2, 2, 2, 4], 5: [2, 2, 3, 2], 6: [2, 2, 2, 2], 7: [2, 2, 3, 2], 8: [2, 2, 2, 2]}
+_DOM = {1: [2, 2, 2, 2, 3, 2], 2: [7, 2], 3: [7, 5], 4: [2, 2, 2, 4], 5: [2, 4, 3, 2], 6: [2, 2, 2, 2], 7: [2, 2, 3, 2], 8: [2, 2, 2, 2]}
 
 
 def _build(cls, x):
@@ -330,7 +334,7 @@ MANIFEST = {
              "(constructor; hashed donor then model_copy(update) / attribute assignment; hashed then deep copy / dump-validate "
              "round trip; constructor with every optional field passed explicitly), and vocabulary / query tags of the encoders "
              "written differently, so a hash that remembers a derivation or sees which fields were set is refuted (controls "
-             "history/MC_Encoding_hash_memo, _hash_fields_set, _hash_extras_order, _eq_uri, _eq_nan, _key_strip_value, _hash_note_iso, _key_declared_fields, _key_json_text, _decode_redump; Terms also carry two extra "
+             "history/MC_Encoding_hash_memo, _hash_fields_set, _hash_extras_order, _eq_uri, _eq_nan, _key_strip_value, _hash_note_iso, _hash_geometry_json, _key_declared_fields, _key_json_text, _decode_redump; Terms also carry two extra "
              "attributes given in either order; the encoder is also judged against the OBSERVED equality "
              "of query and vocabulary tags, EncodeIffObservedEqual) -- plus random vocabularies of <= 8 of 26 tags "
              "with lists of <= 8, and TLC validates the observations clause by clause."),
